@@ -34,7 +34,7 @@ def filter_stage_spec(body):
 def all_stages(F):
     out = []
     for b in lcstage.find_stage(F):
-        out.append({'name': 'lifecycle detection', 'body': b, 'spec': own.OwnSpec(), 'min_send': 5, 'min_recv': 4})
+        out.append({'name': 'lifecycle detection', 'body': b, 'spec': own.OwnSpec(), 'min_send': 3, 'min_recv': 2})
     for b in plugin_stage_bodies(F):
         out.append({'name': 'plugins', 'body': b, 'spec': plugin_stage_spec(), 'min_send': 1, 'min_recv': 1})
     for b in c10.stage_bodies(F):
